@@ -1209,6 +1209,11 @@ def run(ctx):
         total += audit(cfg, crate, "rcgen", rep)
         sinks(cfg, crate, rep)
         termination(cfg, crate, rep)
+        if cfg == "K1":
+            # the provenance discharge of the asserting string sinks (`write_ia5_string` asserts ASCII, ..) rests on the
+            # wrappers admitting only what their sink accepts: the admission predicates are part of "never panics"
+            import c13
+            common.borrow_rules(rep, lambda: (c13.alpha(cfg, crate, rep), c13.sink(cfg, crate, rep)), "C13.", "C10.strings")
     rep.floor("C10.audit", "explicit panic sites enumerated", total, 60)
     # the sink model is frozen from one yasna version
     import os
